@@ -612,6 +612,7 @@ pub fn run(cfg: &Cfg) -> Report {
             }
         }
     }
+    crate::sanitize::passes_for("C28", cfg, &mut stats);
     Report {
         prop: "C28",
         level: "exploration",
